@@ -132,6 +132,7 @@ type GenOpts struct {
 	MaxReorg    int
 	Sectors     int                                                              // > 0: contract data mostly whole sectors (World.Sectors)
 	LibProver   bool                                                             // honest proofs over sector files come from the library's provers
+	HugeFiles   bool                                                             // contract formation sometimes commits to a virtual file of up to 2^64-1 bytes (World.Huge)
 	OnBlock     func(g *Gen, b *Builder)                                         // extra actions before Fill (property-specific scenarios); nil: SameBlockScenarios
 	NoScenarios bool                                                             // with OnBlock == nil: do not force same-block combinations
 	BeforeApply func(g *Gen, honest types.Block, bs consensus.V1BlockSupplement) // sealed honest block, not yet applied (record probes here)
@@ -152,7 +153,7 @@ type Gen struct {
 func NewGen(t *rapid.T, o GenOpts) *Gen {
 	n, genesis := GenNetwork(t, o.Net)
 	w := NewWorld()
-	w.Sectors, w.LibProver = o.Sectors, o.LibProver
+	w.Sectors, w.LibProver, w.Huge = o.Sectors, o.LibProver, o.HugeFiles
 	w.RegisterGenesis()
 	ch, _, err := NewChain(n, genesis)
 	if err != nil {
